@@ -1322,6 +1322,8 @@ class Interp:
                 return models.str_getitem(self, obj, idx)
             if isinstance(obj, models.SymRange):
                 return obj.get(idx)
+            if hasattr(type(obj), '__sym_getitem__'):
+                return type(obj).__sym_getitem__(obj, self, idx)
             if isinstance(idx, slice):
                 if has_sym((idx.start, idx.stop, idx.step)):
                     if isinstance(obj, str):
@@ -1390,6 +1392,22 @@ class Interp:
             raise PyExc(e)
 
     def binop(self, op, a, b, inplace=False):
+        if isinstance(a, _BYTEY) or isinstance(b, _BYTEY):
+            if isinstance(op, ast.Add):
+                try:
+                    if isinstance(a, bytearray) and not isinstance(b, (bytes, bytearray)):
+                        a = models.SymByteSeq(list(a), mutable=True)
+                    if isinstance(a, (models.PackedInt, models.PackedFloat)):
+                        a = models.SymByteSeq(models.packed_items(a))
+                    if inplace and isinstance(a, models.SymByteSeq):
+                        return a.__iadd__(b)
+                    if isinstance(a, models.SymByteSeq):
+                        return a + b
+                    return models.SymByteSeq(models.as_byte_items(a) + models.as_byte_items(b), isinstance(a, bytearray))
+                except EngineSignal:
+                    raise
+                except Exception as e:
+                    raise PyExc(e)
         if not (isinstance(a, (Sym, SymList)) or isinstance(b, (Sym, SymList))):
             try:
                 return _NATIVE_BINOPS[type(op)](a, b) if not inplace else _NATIVE_IBINOPS[type(op)](a, b)
@@ -1416,6 +1434,13 @@ class Interp:
             if isinstance(op, ast.NotIn):
                 return lnot(r) if is_sym(r) else not r
             return r
+        if isinstance(a, models.SymByteSeq) or isinstance(b, models.SymByteSeq):
+            if isinstance(op, (ast.Eq, ast.NotEq)):
+                x, y = (a, b) if isinstance(a, models.SymByteSeq) else (b, a)
+                r = x.__eq__(y)
+                if isinstance(op, ast.NotEq):
+                    return lnot(r) if is_sym(r) else not r
+                return r
         if not (isinstance(a, (Sym, SymList)) or isinstance(b, (Sym, SymList))):
             try:
                 return _NATIVE_CMPS[type(op)](a, b)
@@ -1473,6 +1498,8 @@ class Interp:
 
 
 import operator as _op
+
+_BYTEY = (models.SymByteSeq, models.PackedInt, models.PackedFloat)
 
 _NATIVE_BINOPS = {
     ast.Add: _op.add, ast.Sub: _op.sub, ast.Mult: _op.mul, ast.Div: _op.truediv, ast.FloorDiv: _op.floordiv,
